@@ -33,7 +33,7 @@ OBLIGATIONS = ["NiftyVerif.C35." + t for t in (
     "mask_adjoint_zero_fill", "los_weights_sum", "los_outside_empty",
     "los_traverse_refines", "los_traverse_refines_zero", "los_traverse_weights_sum", "los_traverse_weights_nonneg",
     "los_traverse_steps", "los_traverse_first_pixel", "los_clip_inside", "los_clip_eq_clipBox", "los_traverse_refines_losRow",
-    "los_traverse_in_grid",
+    "los_traverse_in_grid", "los_generic_flag_sound", "los_init_refines",
     "nft_adjoint", "nft_mono_apply_spec", "nft_on_grid_is_dft", "nft_on_grid_is_dft_nd", "nft_shift", "nft_entry_is_phase")]
 RULE = ("one case = (operator class, generated grid / sampling points / line segments / positions / mask / accuracy); "
         "non-trivial = the operator has at least one non-zero weight; distinct by canonical JSON of the case; "
